@@ -9,6 +9,10 @@ use crate::{obs::Obs, rng::Rng};
 pub mod c01;
 pub mod c02;
 pub mod c03;
+pub mod c05;
+pub mod c07;
+pub mod c11;
+pub mod c13;
 
 #[derive(Clone, Copy, Debug, PartialEq, Eq)]
 pub enum Tier {
@@ -36,7 +40,7 @@ pub struct PropDef {
 }
 
 pub fn all() -> Vec<PropDef> {
-  vec![c01::def(), c02::def(), c03::def()]
+  vec![c01::def(), c02::def(), c03::def(), c05::def(), c07::def(), c11::def(), c13::def()]
 }
 
 pub fn find(id: &str) -> Option<PropDef> {
@@ -48,6 +52,7 @@ pub fn trigger(name: &str) -> Option<fn(&Value, &str, &str) -> bool> {
   match name {
     "sms_map_without_mapped_segment" => Some(trig_sms_map_without_mapped_segment),
     "cached_under_replace" => Some(trig_cached_under_replace),
+    "replace_empty_ops_finer_column" => Some(c13::trig_replace_empty_ops_finer_column),
     _ => None,
   }
 }
